@@ -96,7 +96,78 @@ def two_live_fillers(a):
     return {"shards": out, "n": v}
 
 
+def container_kinds(a):
+    """(child) the caller keeps ONE metadata object and changes the distinguishing value *inside a container* of some kind between
+    writes (a list inside a tuple, a list inside a list inside a dict, a set, a list, a dict).  Returns, per kind, the listed shards
+    with their recorded label and the label each of their examples was written under."""
+    import json, shutil
+    from pathlib import Path
+    from harness.core import sp
+    sp.sedpack()
+    from sedpack.io import Dataset
+    root = Path(a["root"])
+    def build(kind, tag):
+        return {"tuple_of_list": {"run": ([tag], "x")}, "tuple_in_dict": {"cfg": {"win": ([tag, 1], 2)}}, "set": {"run": {tag}},
+                "list": {"run": [tag]}, "dict": {"run": {"t": tag}}, "list_of_tuple_of_list": {"run": [([tag],)]}}[kind]
+    def change(kind, obj, tag):
+        if kind == "tuple_of_list": obj["run"][0][0] = tag
+        elif kind == "tuple_in_dict": obj["cfg"]["win"][0][0] = tag
+        elif kind == "set": obj["run"].clear(); obj["run"].add(tag)
+        elif kind == "list": obj["run"][0] = tag
+        elif kind == "dict": obj["run"]["t"] = tag
+        else: obj["run"][0][0][0] = tag
+    def canon(v):
+        return json.dumps(json.loads(json.dumps(v, default=lambda o: sorted(o))), sort_keys=True)
+    out = []
+    for kind in a["kinds"]:
+        shutil.rmtree(root, ignore_errors=True)
+        r = {"kind": kind}
+        try:
+            ds = sp.mk(root, fmt=a["fmt"], eps=a["eps"])
+            under = {}
+            obj = build(kind, "A")
+            v = 0
+            with ds.filler() as f:
+                for tag in a["tags"]:
+                    change(kind, obj, tag)
+                    for _ in range(a["per"]):
+                        f.write_example(values=sp.val(v), split="train", custom_metadata=obj); under[v] = canon(obj); v += 1
+            d2 = Dataset(root)
+            r["shards"] = []
+            for si in d2.shard_info_iterator("train"):
+                ids = F.decode_shard(d2, d2.path / si.file_infos[0].file_path)
+                r["shards"].append({"recorded": canon(si.custom_metadata), "ids": ids, "written_under": [under.get(x) for x in ids]})
+            r["n"] = v
+        except Exception as e:  # noqa: BLE001
+            r["error"] = f"{type(e).__name__}: {str(e)[:200]}"
+        out.append(r)
+    shutil.rmtree(root, ignore_errors=True)
+    return out
+
+
 def run(ctx):
+    # ---- one metadata object whose distinguishing value sits inside a container of each kind and is changed in place
+    from harness.core import child
+    nck = 0
+    for j, fmt in enumerate(["fb", "npz", "tfrec"][: ctx.pick(2, 3)] if not ctx.thorough else ["fb", "npz", "tfrec"]):
+        ca = {"root": str(ctx.scratch / f"c11_kinds{j}"), "fmt": ["fb", "npz", "tfrec"][(j + ctx.seed) % 3], "eps": 5, "per": 2, "tags": ["A", "B", "A", "C"][: 3 + j % 2],
+              "kinds": ["tuple_of_list", "tuple_in_dict", "set", "list", "dict", "list_of_tuple_of_list"]}
+        for r in child.call("harness.checks.c11", "container_kinds", ca, timeout=600):
+            nck += 1
+            if "error" in r:
+                # a container JSON cannot hold (a set) may be refused — loudly, at the write or when the session is saved
+                if r["kind"] == "set" and ("serializ" in r["error"].lower() or "TypeError" in r["error"] or "json" in r["error"].lower()):
+                    continue
+                ctx.report({"kind": "label-error", "container": r["kind"]}, f"metadata held in a {r['kind']}: {r['error']}", {"case": ca, "result": r}); continue
+            bad = next((sh for sh in r["shards"] if any(w != sh["recorded"] for w in sh["written_under"])), None)
+            seen = sorted(x for sh in r["shards"] for x in sh["ids"])
+            if bad is not None:
+                ctx.report({"kind": "label", "mutated_in_place": True, "container": r["kind"]},
+                           f"one metadata object changed in place inside a {r['kind']}: a shard labelled {bad['recorded']} holds examples {bad['ids']} written under {bad['written_under']}",
+                           {"case": ca, "kind": r["kind"], "shard": bad})
+            elif seen != list(range(r["n"])):
+                ctx.report({"kind": "listing", "container": r["kind"]}, f"listed examples {seen} of {r['n']} written", {"case": ca, "kind": r["kind"]})
+    ctx.cov["container_kind_runs"] = nck
     # ---- two fillers alive at once: every listed shard is labelled with what its examples were written under
     for j in range(ctx.pick(2, 8)):
         ta = {"root": str(ctx.scratch / f"c11_two{j}"), "fmt": ["fb", "npz", "tfrec"][j % 3], "eps": 2 + j % 2, "steps": 14, "seed": ctx.seed * 100 + j}
